@@ -273,6 +273,12 @@ func main() {
 				r.Err = "dump: " + err.Error()
 				return
 			}
+			// which of the statements are effective writes: each one alone through the writable handle, rolled back
+			r.RwRc, r.RwChanged = c.VerifWritableTrial(s.Name, s.Writes)
+			if again, err := c.VerifDump(s.Name); err != nil || again != r.Before {
+				r.Err = "trial: the rolled-back trial run changed the database"
+				return
+			}
 			tx, err := c.VerifBeginReadOnly(s.Name, s.Rp)
 			if err != nil {
 				r.Err = "beginReadOnly: " + err.Error()
@@ -296,8 +302,6 @@ func main() {
 				r.Err = "dump after: " + err.Error()
 				return
 			}
-			// which of the statements are effective writes: each one alone through the writable handle
-			r.RwRc, r.RwChanged = c.VerifWritableTrial(s.Name, s.Writes)
 		}()
 		out = append(out, r)
 	}
